@@ -102,6 +102,56 @@ theorem parseJavaCpu_printJavaCpu (d : JavaCpuDoc) (h : d.wf = true) :
 theorem parseJava_printJava (scale : ScaleFn) (d : JavaDoc) (h : d.wf = true) :
     parseJavaProfile scale (printJava d) = .ok (expectedJava scale d) := Legacy.parseJava_printJava scale d h
 
+/-! ### line endings and document termination
+
+The printers above terminate every line with `\n`.  `renderLines crlf noFinal ls` renders the same
+lines with `\r\n` on an arbitrary subset of them and, optionally, no terminator after the last one;
+the conversion is the same for every such rendering.  (Hypothesis `hlast`: an unterminated EMPTY
+last line is no line for `bufio.Scanner`; the printers' last line is empty only when it is a blank
+filler.)  Java heapz/contentionz documents and material after the final terminator (blank lines,
+blanks, NUL) are tied by correspondence only. -/
+
+/-- `bufio.ScanLines` reads the lines back under every mixture of `\n` / `\r\n` and with or without
+a final terminator. -/
+theorem lines_any_termination (cs : List Bool) (noFinal : Bool) (ls : List Str) (h : ∀ l ∈ ls, LineOK l)
+    (hlast : noFinal = true → ls.getLast? ≠ some []) : splitLines (renderLines cs noFinal ls) = ls :=
+  splitLines_renderLines cs noFinal ls h hlast
+
+theorem parseCount_any_termination (cs : List Bool) (nf : Bool) (d : CountDoc) (h : d.wf = true)
+    (hlast : nf = true → d.lines.getLast? ≠ some []) :
+    parseGoCount (renderLines cs nf d.lines) = .ok (expectedCount d) := parseGoCount_renderLines cs nf d h hlast
+
+theorem parseHeap_any_termination (scale : ScaleFn) (cs : List Bool) (nf : Bool) (d : HeapDoc) (h : d.wf = true)
+    (hlast : nf = true → d.lines.getLast? ≠ some []) :
+    parseHeap scale (renderLines cs nf d.lines) = .ok (expectedHeap scale d) := parseHeap_renderLines scale cs nf d h hlast
+
+theorem parseContention_any_termination (cyc : CycFn) (cs : List Bool) (nf : Bool) (d : ContDoc) (h : d.wf = true)
+    (hlast : nf = true → d.lines.getLast? ≠ some []) :
+    parseContention cyc (renderLines cs nf d.lines) = .ok (expectedContention cyc d) :=
+  parseContention_renderLines cyc cs nf d h hlast
+
+theorem parseThread_any_termination (cs : List Bool) (nf : Bool) (d : ThreadDoc) (h : d.wf = true)
+    (hlast : nf = true → d.lines.getLast? ≠ some []) :
+    parseThread (renderLines cs nf d.lines) = .ok (expectedThread d) := parseThread_renderLines cs nf d h hlast
+
+/-- binary CPU profiles: any termination of the memory map that follows the end marker -/
+theorem parseCpu_any_termination (cs : List Bool) (nf : Bool) (d : CpuDoc) (h : d.wf = true)
+    (hlast : nf = true → ∀ m, d.map = some m → m.bodyLines.getLast? ≠ some []) :
+    parseCPU (printCpuWith cs nf d) = .ok (expectedCpu d) := parseCPU_printCpuWith cs nf d h hlast
+
+/-- `parseJavaLocations` (`ReadString('\n')` + `TrimSpace`) reads the same location lines under every
+line termination; in particular an unterminated last line is still processed (seeded change C14-p). -/
+theorem javaTrailer_any_termination (cs : List Bool) (nf : Bool) (ls : List Str) (h : ∀ l ∈ ls, LineOK l) :
+    javaLocLoop (javaLocLines (renderLines cs nf ls)) = javaLocLoop ls := javaLocLines_renderLines cs nf ls h
+
+/-- binary Java CPU profiles: any termination of the trailer, no side condition -/
+theorem parseJavaCpu_any_termination (cs : List Bool) (nf : Bool) (d : JavaCpuDoc) (h : d.wf = true) :
+    parseCPU (printJavaCpuWith cs nf d) = .ok (expectedJavaCpu d) := parseCPU_printJavaCpuWith cs nf d h
+
+-- the renderings differ from the standard one: CRLF on the first line, last line unterminated
+example : renderLines [true] true [asc "a", asc "b"] = asc "a\r\nb" ∧ renderLines [] false [asc "a", asc "b"] = unlines [asc "a", asc "b"] := by
+  decide
+
 /-! ### `ParseData` level (protobuf decoder first, then the chain of legacy parsers)
 
 Full statement of the property for a format X:
